@@ -297,7 +297,10 @@ def h_poly_ops(env, N, op):
     env.goal('torch_side_no_exception', b_not(rt.raised))
     if rn.value is None or rt.value is None:
         return
-    for nm, a, b in zip(('strings', 'phases', 'coefficients') if op != 'trace' else ('trace',), rn.value, nn(env, rt.value)):
+    names = ('strings', 'phases', 'coefficients') if op != 'trace' else ('trace',)
+    if len(rn.value) > len(names):
+        names = tuple('component%d' % k for k in range(len(rn.value)))
+    for nm, a, b in zip(names, rn.value, nn(env, rt.value)):
         env.goal('same_' + nm, same(np.asarray(a) if isinstance(a, np.ndarray) else a, b))
 
 
